@@ -426,6 +426,12 @@ func stripDate(sent *xMsg, g *xGot) bool {
 func (s *xSide) exchangeX(c *hx.Ctx, kind string, mreq, mresp *xMsg, req, resp *xReq) (string, string) {
 	gq, gr := &xGot{st: "lost"}, &xGot{st: "lost"}
 	method := mreq.method
+	xWait := xWait
+	if mreq.malformed {
+		// MOSN detects the malformed header block in the framer and (at this commit) neither forwards the request nor sends
+		// RST_STREAM: the outcome is "not forwarded" after a short wait instead of the full one
+		xWait = 400 * time.Millisecond
+	}
 	var h2c *h2Raw
 	var h1c net.Conn
 	var err error
